@@ -1,4 +1,4 @@
-import Proofs.Frame
+import Proofs.FrameRt
 /-
 C05 — Compressed frames round-trip and any corrupted frame is rejected.
 
@@ -40,52 +40,8 @@ whatever the reader held before. -/
 theorem C05_frame_roundtrip (c : Codec) (hc : c.WF) (m : Nat) (hm : m ≤ 3) (payload rest d0 : Bytes)
     (p0 : Nat) (hp : payload.length ≤ maxDataSize) (hb : (body c m payload).length ≤ maxBlockSize) :
     readBlock c { src := frame c m payload ++ rest, data := d0, pos := p0 } =
-      ({ src := rest, data := payload, pos := 0 }, .ok ()) := by
-  have hshape : frame c m payload ++ rest =
-      c.H (tail c m payload) ++ methodByte m ::
-        (leBytes 4 ((body c m payload).length + compressHeaderSize) ++ leBytes 4 payload.length)
-        ++ (body c m payload ++ rest) := by
-    simp [frame, tail, List.append_assoc]
-  rw [hshape, readBlock_parts c _ _ _ _ _ _ _ (hc.hlen _) (leBytes_length _ _) (leBytes_length _ _)]
-  unfold afterHeader
-  have hmax : maxDataSize = 134217728 := rfl
-  have hmaxb : maxBlockSize = 134217728 := rfl
-  have h9 : compressHeaderSize = 9 := rfl
-  have hv1 : leVal (leBytes 4 payload.length) = payload.length := by
-    rw [leVal_leBytes]; apply Nat.mod_eq_of_lt; omega
-  have hv2 : leVal (leBytes 4 ((body c m payload).length + compressHeaderSize)) =
-      (body c m payload).length + compressHeaderSize := by
-    rw [leVal_leBytes]; apply Nat.mod_eq_of_lt; omega
-  simp only [hv1, hv2]
-  have c1 : ¬ payload.length > maxDataSize := by omega
-  have c2 : ¬ ((body c m payload).length + compressHeaderSize < compressHeaderSize ∨
-      (body c m payload).length + compressHeaderSize - compressHeaderSize > maxBlockSize) := by omega
-  have c3 : ¬ (body c m payload ++ rest).length <
-      (body c m payload).length + compressHeaderSize - compressHeaderSize := by simp
-  rw [if_neg c1, if_neg c2, if_neg c3]
-  simp only [Nat.add_sub_cancel]
-  have ht : (body c m payload ++ rest).take (body c m payload).length = body c m payload := by simp
-  have hd : (body c m payload ++ rest).drop (body c m payload).length = rest := by simp
-  rw [ht, hd]
-  have hcs : ¬ (c.H (tail c m payload) ≠ c.H (methodByte m ::
-      (leBytes 4 ((body c m payload).length + compressHeaderSize) ++ leBytes 4 payload.length)
-        ++ body c m payload)) := by
-    simp [tail, h9, List.append_assoc]
-  simp only [hcs, ↓reduceIte]
-  have hdec : decodeBody c (methodByte m) (body c m payload) payload.length = .ok payload := by
-    have : m = 0 ∨ m = 1 ∨ m = 2 ∨ m = 3 := by omega
-    rcases this with rfl | rfl | rfl | rfl
-    · simp [decodeBody, methodByte, body]
-    · simp [decodeBody, methodByte, body]
-      have := hc.rt 1 payload (by omega) (by omega)
-      simp [methodByte] at this; rw [this]
-    · simp [decodeBody, methodByte, body]
-      have := hc.rt 2 payload (by omega) (by omega)
-      simp [methodByte] at this; rw [this]
-    · simp [decodeBody, methodByte, body]
-      have := hc.rt 3 payload (by omega) (by omega)
-      simp [methodByte] at this; rw [this]
-  rw [hdec]
+      ({ src := rest, data := payload, pos := 0 }, .ok ()) :=
+  frame_rt c hc m hm payload rest d0 p0 hp hb
 
 /-- One `Read` on a reader positioned in a valid frame sequence: it succeeds with bytes that
 are the next bytes of the logical stream, or — only when nothing is left — reports EOF. -/
